@@ -208,6 +208,23 @@ theorem see_swaplist (g : Game) (mv : Move) (moved : Piece) (occ : BB) (r : Bool
   rw [e]
   exact decide_eq_decide.2 this
 
+/-- **spec_is_swaplist**: the independent mailbox computation the `see` stream compares against (`See.swapValue`)
+is the same fold `swapAbs`, over the capturers *it* finds on the mailbox board (`See.seq`) — so `see_swaplist`
+and this leave exactly one thing to the stream: that the two sequences agree on tie-free positions -/
+theorem spec_is_swaplist (p : Rules.Pos) (m : Move) (moved : Piece) (h : Rules.at' p.board m.src = some moved) :
+    (swapValue p m).map (·.1) = some
+      (((Rules.at' p.board m.dst).map (fun pc => pieceValue pc.kind) |>.getD 0) +
+        (match m.promotion with | some pr => pieceValue pr.piece - pieceValue .pawn | none => 0) -
+        swapAbs (seq m.dst 40
+          (Rules.setSq (Rules.setSq p.board m.src none) m.dst
+            (some ⟨(match m.promotion with | some pr => pr.piece | none => moved.kind), p.player⟩)) p.player.other)
+          (pieceValue (match m.promotion with | some pr => pr.piece | none => moved.kind))) := by
+  unfold swapValue
+  rw [h]
+  simp only [Option.map_some, Option.some.injEq]
+  rw [← swap_is_swapAbs]
+  cases m.promotion <;> rfl
+
 /-- why the parity matters: on a sequence with an even value the engine's stop test (`≤` for the opponent) and the
 swap list part ways — N takes P (+100), the opponent's 100-point man retakes the knight worth 200 in this imaginary
 table … here simply: running score 0 with the opponent to capture a man worth 300 for free -/
@@ -256,3 +273,4 @@ end Tcheran.Props.C20
 #print axioms Tcheran.Props.C20.tie_break_mirror
 #print axioms Tcheran.Props.C20.gain_odd
 #print axioms Tcheran.Props.C20.see_swaplist
+#print axioms Tcheran.Props.C20.spec_is_swaplist
